@@ -165,6 +165,32 @@ def explore(ctx: common.Ctx, n_jobs: int, opts: dict, procs: int = 14) -> List[d
         for k, o in zip(cidx, couts):
             if k is not None:
                 done[k[0]]['witness_completion'][k[1][2]] = o
+        # an entry for which NO completion exists: is a proper sub-collection of the named
+        # records a witness (the label unions records of mutually exclusive alternatives)?
+        import itertools as _it
+        slines, sidx = [], []
+        for i, r in enumerate(done):
+            todo = [w for w in r.get('witness_no', []) if w[0]
+                    and not r['witness_completion'].get(w[2], 'none').startswith('extra:')]
+            if not todo:
+                continue
+            slines.append(r['set_line'])
+            sidx.append(None)
+            for w in todo[:6]:
+                f = w[0].split('\t')
+                ids = [x for x in f[4].split(',') if x]
+                if not (2 <= len(ids) <= 6):
+                    continue
+                for k in range(len(ids) - 1, 0, -1):
+                    for sub in _it.combinations(ids, k):
+                        slines.append('\t'.join(f[:4] + [','.join(sub), f[5]]))
+                        sidx.append((i, w, sub))
+        souts = ctx.lean(slines) or []
+        for r in done:
+            r['subset_witness'] = {}
+        for k, o in zip(sidx, souts):
+            if k is not None and o == 'yes':
+                done[k[0]]['subset_witness'].setdefault(k[1][2], list(k[2]))
         # does an omitted record lie inside the stretch encoding the peptide?
         ilines, iidx = [], []
         for i, r in enumerate(done):
